@@ -173,7 +173,12 @@ func (prop) Gen(r *core.Rand, tier string) []core.Case {
 					c.Ops = append(c.Ops, fmt.Sprintf("%s%d %d %s %d 0 %s %d", xv, nb, nr, nc.String(), g.ben, g.cum.String(), g.ben))
 					adv++
 				}
-			case 22, 23: // concurrent deliveries of cheques of one issuer
+			case 22, 23: // concurrent deliveries of cheques of one issuer (costly: about half as often as a signature reuse)
+				if !r.Chance(55) {
+					c.Ops = append(c.Ops, "cheques")
+					obs++
+					break
+				}
 				k := r.Range(2, 3)
 				via := strconv.Itoa(p)
 				if r.Chance(60) {
